@@ -1208,7 +1208,13 @@ func (self *_parser) parseArrowFunction(start file.Idx, paramList *ast.Parameter
 		Async:         async,
 	}
 	node.Body, node.DeclarationList = self.parseArrowFunctionBody(async)
-	node.Source = self.slice(start, node.Body.Idx1())
+	end := node.Body.Idx1()
+	if _, ok := node.Body.(*ast.ExpressionBody); ok && self.prevTokenEnd > end {
+		// the end of a concise body is the end of the last token consumed: Idx1() of a parenthesised
+		// expression does not include the closing parenthesis
+		end = self.prevTokenEnd
+	}
+	node.Source = self.slice(start, end)
 	return node
 }
 
